@@ -1541,4 +1541,17 @@ example : (objectAfter .binary [([.int 0, .int 1, .int 2], 1), ([.int 0], 1/2), 
       = ([(.int 0, .int 4), (.int 1, .int 5)], [(.int 4, .int 1), (.int 5, .int 0)]) := by
   decide +kernel
 
+/-- the conflict path (swap / cycle: two safe steps through intermediate labels) composes two relabellings: when each of the two dicts of
+    `resolve_label_conflict` meets the label-level conditions on the state it is applied to, the object has the old polynomial's energy at
+    `x ∘ intermediate_to_new ∘ old_to_intermediate`.  Partial: that the two dicts as coded meet these conditions (fresh integer labels
+    from the counter, `intermediate_to_new` injective on the intermediate state) is not proved — tied by the per-run replay only -/
+theorem poly_object_relabel_conflict_energy_partial (x : Label → Rat) (o2i i2n : List (Label × Label)) (s : PolyState) (hs : TermsOK s)
+    (h1inj : ∀ v w, v ∈ stateVars s → w ∈ stateVars s → mapLabel o2i v = mapLabel o2i w → v = w)
+    (h1fresh : ∀ v ∈ stateVars s, mapLabel o2i v ≠ v → mapLabel o2i v ∉ stateVars s)
+    (h2inj : ∀ v w, v ∈ stateVars (relabelStep o2i s) → w ∈ stateVars (relabelStep o2i s) → mapLabel i2n v = mapLabel i2n w → v = w)
+    (h2fresh : ∀ v ∈ stateVars (relabelStep o2i s), mapLabel i2n v ≠ v → mapLabel i2n v ∉ stateVars (relabelStep o2i s)) :
+    polyEnergy x (relabelStep i2n (relabelStep o2i s)) = polyEnergy (fun v => x (mapLabel i2n (mapLabel o2i v))) s := by
+  rw [poly_object_relabel_energy_of_labels x i2n (relabelStep o2i s) (relabelStep_ok o2i s hs) h2inj h2fresh,
+    poly_object_relabel_energy_of_labels (fun v => x (mapLabel i2n v)) o2i s hs h1inj h1fresh]
+
 end C15
